@@ -88,6 +88,9 @@ func commandPattern(n *Node) string {
 	if n.Barrier > 0 {
 		fmt.Fprintf(&b, " -barrier %d", n.Barrier)
 	}
+	if n.BGroup != "" {
+		fmt.Fprintf(&b, " -bgroup {p:%s}", n.BGroup)
+	}
 	return b.String()
 }
 
